@@ -9,8 +9,10 @@ package main
 
 import (
 	"fmt"
+	"sort"
 	"go/constant"
 	"go/token"
+	"go/types"
 	"strings"
 
 	"golang.org/x/tools/go/ssa"
@@ -99,9 +101,8 @@ func laStructs(c *Ctx, rule string) {
 		r.undecided(rule, key, pos, "unexpected signature")
 		return
 	}
-	// the loop: test `i < int(*parent.NumChildren)`
-	var iPhi, jPhi *ssa.Phi
-	var loopIf *ssa.If
+	// the loop over the children: a counter c with `c < int(*parent.NumChildren)`, c' = c + 1
+	var cPhi *ssa.Phi
 	var bad []string
 	for _, b := range fn.Blocks {
 		iff, ok := lastInstr(b).(*ssa.If)
@@ -128,28 +129,193 @@ func laStructs(c *Ctx, rule string) {
 		if !isNC {
 			continue
 		}
-		iPhi, loopIf = phi, iff
+		cPhi = phi
 		if bo.Op != token.LSS {
 			bad = append(bad, "the loop over the children runs while i "+bo.Op.String()+" num_children, want i < num_children")
 		}
-		for _, ins := range b.Instrs {
-			if p2, ok := ins.(*ssa.Phi); ok && p2 != phi && p2.Type() == phi.Type() {
-				jPhi = p2
+	}
+	if cPhi == nil {
+		r.undecided(rule, key, pos, "the loop over parent.num_children children was not recognised")
+		return
+	}
+	header := cPhi.Block()
+	// loop-carried integer variables (i, j / pos): the phis of the loop header
+	var carried []*ssa.Phi
+	for _, ins := range header.Instrs {
+		if p2, ok := ins.(*ssa.Phi); ok && types.Identical(p2.Type(), cPhi.Type()) {
+			carried = append(carried, p2)
+		}
+	}
+	n := extractOf(rec, 0)
+	// linear forms over the carried variables and n (the consumption of the nested group)
+	type form struct {
+		co map[ssa.Value]int64
+		k  int64
+		ok bool
+	}
+	var lin func(v ssa.Value, group bool, d int) form
+	lin = func(v ssa.Value, group bool, d int) form {
+		out := form{co: map[ssa.Value]int64{}, ok: true}
+		if d > 10 {
+			out.ok = false
+			return out
+		}
+		v = stripConvert(v)
+		for _, c := range carried {
+			if v == ssa.Value(c) {
+				out.co[c] = 1
+				return out
+			}
+		}
+		if n != nil && v == n {
+			out.co[n] = 1
+			return out
+		}
+		switch x := v.(type) {
+		case *ssa.Const:
+			if x.Value != nil && x.Value.Kind() == constant.Int {
+				out.k, _ = constant.Int64Val(x.Value)
+				return out
+			}
+		case *ssa.BinOp:
+			if x.Op == token.ADD || x.Op == token.SUB {
+				a, b := lin(x.X, group, d+1), lin(x.Y, group, d+1)
+				if a.ok && b.ok {
+					sg := int64(1)
+					if x.Op == token.SUB {
+						sg = -1
+					}
+					for k2, c2 := range a.co {
+						out.co[k2] += c2
+					}
+					for k2, c2 := range b.co {
+						out.co[k2] += sg * c2
+					}
+					out.k = a.k + sg*b.k
+					return out
+				}
+			}
+		case *ssa.Phi:
+			// a merge inside the body: the edge that comes from the nested-group branch, or the others
+			var pick *form
+			for i, e := range x.Edges {
+				pred := x.Block().Preds[i]
+				fromGroup := pred == rec.Block() || rec.Block().Dominates(pred)
+				if fromGroup != group {
+					continue
+				}
+				f := lin(e, group, d+1)
+				if !f.ok {
+					out.ok = false
+					return out
+				}
+				if pick != nil && fmt.Sprint(pick.co, pick.k) != fmt.Sprint(f.co, f.k) {
+					out.ok = false
+					return out
+				}
+				pick = &f
+			}
+			if pick != nil {
+				return *pick
+			}
+		}
+		out.ok = false
+		return out
+	}
+	minus := func(a, b form) form {
+		out := form{co: map[ssa.Value]int64{}, ok: a.ok && b.ok, k: a.k - b.k}
+		for k2, c2 := range a.co {
+			out.co[k2] += c2
+		}
+		for k2, c2 := range b.co {
+			out.co[k2] -= c2
+		}
+		for k2, c2 := range out.co {
+			if c2 == 0 {
+				delete(out.co, k2)
+			}
+		}
+		return out
+	}
+	subst := func(f form, group bool) form {
+		// f with every carried variable replaced by its value after one iteration
+		out := form{co: map[ssa.Value]int64{}, ok: f.ok, k: f.k}
+		for v, c2 := range f.co {
+			phi, isPhi := v.(*ssa.Phi)
+			if !isPhi {
+				out.co[v] += c2
+				continue
+			}
+			var next ssa.Value
+			for i, pred := range phi.Block().Preds {
+				if phi.Block().Dominates(pred) {
+					next = phi.Edges[i]
+				}
+			}
+			if next == nil {
+				out.ok = false
+				return out
+			}
+			nf := lin(next, group, 0)
+			if !nf.ok {
+				out.ok = false
+				return out
+			}
+			for k2, c3 := range nf.co {
+				out.co[k2] += c2 * c3
+			}
+			out.k += c2 * nf.k
+		}
+		return out
+	}
+	isConstForm := func(f form, k int64, withN bool) bool {
+		if !f.ok || f.k != k {
+			return false
+		}
+		want := 0
+		if withN {
+			want = 1
+			if f.co[n] != 1 {
+				return false
+			}
+		}
+		cnt := 0
+		for _, c2 := range f.co {
+			if c2 != 0 {
+				cnt++
+			}
+		}
+		return cnt == want
+	}
+	show := func(f form) string {
+		if !f.ok {
+			return "?"
+		}
+		var parts []string
+		for v, c2 := range f.co {
+			if c2 != 0 {
+				parts = append(parts, fmt.Sprintf("%d*%s", c2, v.Name()))
+			}
+		}
+		sort.Strings(parts)
+		return strings.Join(append(parts, fmt.Sprint(f.k)), " + ")
+	}
+	// the counters start at 0
+	for _, c := range carried {
+		for i, pred := range header.Preds {
+			if !header.Dominates(pred) && !constIs(c.Edges[i], 0) {
+				bad = append(bad, "a counter does not start at 0")
 			}
 		}
 	}
-	if iPhi == nil || jPhi == nil {
-		r.undecided(rule, key, pos, "the loop over parent.num_children children with two counters was not recognised")
-		return
-	}
-	lin := func(v ssa.Value) (int64, int64, int64, bool) { return linIJ(v, iPhi, jPhi, 0) }
-	show := func(v ssa.Value) string {
-		if a, b, k, ok := lin(v); ok {
-			return fmt.Sprintf("%d*i + %d*j + %d", a, b, k)
+	// the loop counter advances by one per child on both paths
+	for _, g := range []bool{false, true} {
+		if d := minus(subst(form{co: map[ssa.Value]int64{cPhi: 1}, ok: true}, g), form{co: map[ssa.Value]int64{cPhi: 1}, ok: true}); !isConstForm(d, 1, false) {
+			bad = append(bad, "the child counter is not advanced by exactly one per child")
 		}
-		return symExpr(v, 0)
 	}
-	// (1) the child taken
+	// (1) the position P of the child taken; after a leaf P' = P + 1, after a nested group P' = P + 1 + consumed
+	var P form
 	taken := false
 	for _, b := range fn.Blocks {
 		for _, ins := range b.Instrs {
@@ -158,29 +324,36 @@ func laStructs(c *Ctx, rule string) {
 				continue
 			}
 			taken = true
-			if a, bb, k, ok := lin(ia.Index); !ok || a != 1 || bb != 1 || k != 0 {
-				bad = append(bad, "the next child is taken at offset "+show(ia.Index)+" of the list, want i+j (children seen + elements consumed by nested groups)")
-			}
+			P = lin(ia.Index, false, 0)
 		}
 	}
-	if !taken {
-		bad = append(bad, "no element of the list is taken")
+	if !taken || !P.ok {
+		bad = append(bad, "the position of the child taken is not a sum of the loop's counters")
+	} else {
+		if d := minus(subst(P, false), P); !isConstForm(d, 1, false) {
+			bad = append(bad, "after a leaf child the next child is taken "+show(d)+" elements further, want 1")
+		}
+		if d := minus(subst(P, true), P); !isConstForm(d, 1, true) {
+			bad = append(bad, "after a nested group the next child is taken "+show(d)+" elements further, want 1 + the elements the group consumed")
+		}
+		// at the start P = 0 (all counters start at 0): P has no constant part
+		if P.k != 0 {
+			bad = append(bad, fmt.Sprintf("the first child is taken at offset %d, want 0", P.k))
+		}
 	}
 	// (2) the recursion
 	if len(rec.Call.Args) == 2 {
 		sl, ok := rec.Call.Args[1].(*ssa.Slice)
 		if !ok || sl.X != ssa.Value(children) || sl.High != nil {
 			bad = append(bad, "a nested group does not recurse on a tail of the list")
-		} else if a, bb, k, ok := lin(sl.Low); !ok || a != 1 || bb != 1 || k != 1 {
-			bad = append(bad, "a nested group recurses on the list from offset "+show(sl.Low)+", want i+j+1 (right behind the group's own element)")
+		} else if d := minus(lin(sl.Low, true, 0), P); !isConstForm(d, 1, false) {
+			bad = append(bad, "a nested group recurses on the list from "+show(d)+" behind the group's own element, want 1 (right behind it)")
 		}
-		// on the group itself
 		if ld, ok := rec.Call.Args[0].(*ssa.UnOp); !ok || ld.Op != token.MUL {
 			bad = append(bad, "the recursion is not on the child just taken")
 		} else if ia, ok := ld.X.(*ssa.IndexAddr); !ok || ia.X != ssa.Value(children) {
 			bad = append(bad, "the recursion is not on the child just taken")
 		}
-		// only for groups: num_children != nil && > 0
 		gs := guardConds(rec.Block())
 		hasNil, hasPos := false, false
 		for _, g := range gs {
@@ -229,59 +402,18 @@ func laStructs(c *Ctx, rule string) {
 	} else {
 		bad = append(bad, "unexpected recursion arity")
 	}
-	// (3) the counters on the back edge
-	n := extractOf(rec, 0)
-	for pi, pred := range iPhi.Block().Preds {
-		if !iPhi.Block().Dominates(pred) {
-			// entry edge: both start at 0
-			if !constIs(iPhi.Edges[pi], 0) || !constIs(jPhi.Edges[pi], 0) {
-				bad = append(bad, "the counters do not start at 0")
-			}
-			continue
-		}
-		if a, bb, k, ok := lin(iPhi.Edges[pi]); !ok || a != 1 || bb != 0 || k != 1 {
-			bad = append(bad, "i is advanced to "+show(iPhi.Edges[pi])+" per child, want i+1")
-		}
-		// j: unchanged for leaves, j + consumed for nested groups
-		var check func(v ssa.Value, depth int)
-		check = func(v ssa.Value, depth int) {
-			if depth > 4 {
-				return
-			}
-			if phi, ok := v.(*ssa.Phi); ok && phi != jPhi {
-				for _, e := range phi.Edges {
-					check(e, depth+1)
-				}
-				return
-			}
-			if v == ssa.Value(jPhi) {
-				return
-			}
-			if bo, ok := v.(*ssa.BinOp); ok && bo.Op == token.ADD && n != nil {
-				if (bo.X == ssa.Value(jPhi) && bo.Y == n) || (bo.Y == ssa.Value(jPhi) && bo.X == n) {
-					if !dominatesInstr(rec, bo) {
-						bad = append(bad, "j is advanced outside the nested-group branch")
-					}
-					return
-				}
-			}
-			bad = append(bad, "after a child, j becomes "+symExpr(v, 0)+", want j (leaf) or j + <elements the nested group consumed>")
-		}
-		check(jPhi.Edges[pi], 0)
-	}
-	// (4) the result
+	// (3) the result: the position behind the last child = the number of elements consumed
 	for _, b := range fn.Blocks {
 		if ret, ok := lastInstr(b).(*ssa.Return); ok && len(ret.Results) == 2 {
-			if a, bb, k, ok := lin(ret.Results[0]); !ok || a != 1 || bb != 1 || k != 0 {
-				bad = append(bad, "the function reports "+show(ret.Results[0])+" elements consumed, want i+j")
+			if d := minus(lin(ret.Results[0], false, 0), P); !P.ok || !isConstForm(d, 0, false) {
+				bad = append(bad, "the function reports "+show(lin(ret.Results[0], false, 0))+" elements consumed, want the position behind its last child ("+show(P)+")")
 			}
 		}
 	}
-	_ = loopIf
 	if len(bad) > 0 {
 		r.bad(rule, key, pos, strings.Join(bad, "; ")+": a struct with a nested group followed by further fields (or a second nested group) is reconstructed with the wrong fields")
 	} else {
-		r.ok(rule, key, pos, "child k at i+j; nested group recurses from i+j+1 and adds its consumption to j; i+1 per child; i < num_children; returns i+j")
+		r.ok(rule, key, pos, "child k at position P (a sum of the loop's counters, 0 at the start); P+1 after a leaf, P+1+consumed after a nested group, which recurses from P+1; child counter +1 per child, < num_children; returns P")
 	}
 	// field(): the Go field is named Title(name), tagged with the column's own name
 	fld := sp.Func("field")
